@@ -10,6 +10,34 @@ from .repo import Repo
 from .triage_escape import TRIAGE
 
 _ESC_CACHE: dict = {}
+_DIGESTS: dict | None = None
+
+
+def function_digest(repo: Repo, func_key: str) -> str | None:
+    """Digest of a function's syntax tree without positions and docstrings (stable under reformatting)."""
+    import hashlib
+
+    rel, qual = func_key.split("::", 1)
+    try:
+        fn = repo.func(rel, qual)
+    except Exception:  # noqa: BLE001
+        return None
+    body = [s for s in fn.body if not (isinstance(s, ast.Expr) and isinstance(s.value, ast.Constant) and isinstance(s.value.value, str))]
+    text = ast.dump(ast.Module(body=body, type_ignores=[]), annotate_fields=False, include_attributes=False)
+    return hashlib.sha256(text.encode()).hexdigest()[:16]
+
+
+def triage_trusted(repo: Repo, func_key: str) -> bool:
+    """A SAFE entry is trusted only for the version of the function it was written for (tools/retriage.py)."""
+    global _DIGESTS  # noqa: PLW0603
+    if _DIGESTS is None:
+        import json
+        from pathlib import Path
+
+        p = Path(__file__).with_name("triage_digests.json")
+        _DIGESTS = json.loads(p.read_text()) if p.exists() else {}
+    want = _DIGESTS.get(func_key)
+    return want is not None and want == function_digest(repo, func_key)
 
 
 def escape_engine(repo: Repo) -> Escape:
@@ -137,6 +165,9 @@ def run_entry(check: Check, repo: Repo, entry: str, allowed: set[str], rule: str
             check.oblige(rule, site.func, f"{site.kind} {site.expr}: {exempt_funcs[site.func]}", True)
             continue
         tri = TRIAGE.get(site.key())
+        if tri and tri[0] == "SAFE" and not triage_trusted(repo, site.func):
+            check.defer_error(f"{site.func}: the function has changed since its site `{site.expr}` ({site.exc}) was triaged SAFE (\"{tri[1][:80]}...\"); the reason has to be re-read against the new code (tools/retriage.py)")
+            continue
         if tri and tri[0] == "SAFE":
             check.oblige(rule, site.func, f"{site.kind} {site.expr}: triaged safe — {tri[1]}", True)
             check.count("triaged_safe_sites")
